@@ -16,6 +16,9 @@ CHECKS = {
     'C10': dict(level='model_checking', ref='7 C10', technique='TLA+ model (KernelMatches invariant) + TLC + replay with a kernel model fed by the real netlink bytes; fault enumeration of every NEWSA/DELSA',
                 text=IKE + ' - the kernel side is a model SAD interpreting the real netlink requests; additionally every behaviour is re-run once per NEWSA/DELSA request with that request refused and the invariant re-evaluated after every step.',
                 note='refused NEWSA installs nothing, refused DELSA leaves the SA absent; single fault per run.'),
+    'C09': dict(level='model_checking', ref='7 C09', technique='TLA+ model (collision table, ConsistentAtRest, liveness under fairness) + TLC + replay of every transition; random walks with a lossless drain',
+                text=IKE + '; ConsistentAtRest is checked by TLC with the KnownToBoth trigger guard, EventuallyQuiescent under weak/strong fairness on a small instance; seeded random walks (lossless and lossy) end with a drain and a liveness probe and compare the two endpoints at rest.',
+                note='expire triggers restricted to CHILD_SAs known to both peers (carve-out of the property); internal IkeSaStateError teardowns (a request overtaking the IKE_AUTH response) are recorded as observations, not violations.'),
     'C16': dict(level='model_checking', ref='7 C16', technique='TLA+ model (table as a sequence: NoDupTable, HeldAreListed, routing) + TLC + replay of every transition',
                 text=IKE + '; the IKE_SA table is compared as a sequence and the IKE_SA that processed each datagram is recorded.',
                 note='two endpoints; simultaneous initiations and rekeys give several IKE_SAs per endpoint.'),
